@@ -79,6 +79,8 @@ def modset(body_nodes):
         def visit_Call(self, n):
             if isinstance(n.func, ast.Attribute):
                 calls.add(n.func.attr)
+                recv = ast.unparse(n.func.value).split('.')[-1]
+                calls.add(recv + '.' + n.func.attr)
                 if n.func.attr in MUT:
                     containers.append(n.func.value)
             self.generic_visit(n)
@@ -108,7 +110,11 @@ def cut_loop(it, node, env, spec, iterable):
     if is_for:
         if isinstance(iterable, (VList, VSeqIter, SAny, tuple)):
             mode = 'seq'
-            seq = it.seq_term(iterable, node.lineno)
+            if isinstance(iterable, VSeqIter) or (isinstance(iterable, VList) and iterable.symbolic):
+                seq = iterable.seq
+            else:
+                seq = it.seq_term(iterable, node.lineno)
+                iterable = VSeqIter(seq)
             iname = spec.get('index', '_i')
             env.set(iname, 0)
         elif isinstance(iterable, (VKeys, VDict)):
@@ -125,6 +131,10 @@ def cut_loop(it, node, env, spec, iterable):
             env.set(dname, VSet(arr=pv.EMPTY_SET))
         else:
             raise Unsupported('for loop over %r' % (iterable,))
+
+    # ---- named snapshots of the entry state (ghost locals usable by inner loops as well)
+    for sname, sexpr in spec.get('snap', {}).items():
+        env.set(sname, snapshot(spec_eval(it, sexpr, env)))
 
     # ---- pre() snapshots
     pre = {}
@@ -178,8 +188,18 @@ def cut_loop(it, node, env, spec, iterable):
         # frames of callees under contract and ghost state of protocol models
         extra_paths = list(spec.get('assigns', []))
         for m in calls:
-            for g in MODEL_GHOST.get(m, ()):
-                extra_paths.append('ghost:' + g)
+            if '.' in m:
+                continue
+            # ghost state of protocol models: by receiver.method when every call of this method in the body
+            # has a known receiver name, else everything the method name may touch
+            recvs = [c for c in calls if c.endswith('.' + m)]
+            if recvs and all(r in MODEL_GHOST for r in recvs):
+                for r in recvs:
+                    for g in MODEL_GHOST[r]:
+                        extra_paths.append('ghost:' + g)
+            else:
+                for g in MODEL_GHOST.get(m, ()):
+                    extra_paths.append('ghost:' + g)
             for c in it.world.contracts.values():
                 if c.func.split('.')[-1] == m:
                     for p in c.assigns:
@@ -255,19 +275,19 @@ def cut_loop(it, node, env, spec, iterable):
             if mode == 'seq':
                 i = env.lookup(iname)
                 ctx.assume(i.t < z3.Length(seq))
-                it.assign(node.target, lower(seq[i.t]), env)
+                it.assign(node.target, pv.elem_value(iterable, seq[i.t]), env)
             elif mode in ('keys', 'set'):
-                key = ctx.fresh(PV, 'key')
+                ek = ctx.fresh(z3.StringSort(), 'key')       # keys of symbolic dicts / sets are strings
+                key = pv.SStr(ek)
                 dn = env.lookup(dname)
-                ek = pv.kenc_t(key)
                 ctx.assume((arr[ek] != pv.PAbsent) if mode == 'keys' else arr[ek])
                 ctx.assume(z3.Not(dn.arr[ek]))
                 if mode == 'keys' and view == 'items':
-                    it.assign(node.target, (lower(key), lower(arr[ek])), env)
+                    it.assign(node.target, (key, lower(arr[ek])), env)
                 elif mode == 'keys' and view == 'values':
                     it.assign(node.target, lower(arr[ek]), env)
                 else:
-                    it.assign(node.target, lower(key), env)
+                    it.assign(node.target, key, env)
             ctx.cover(tag + '.iteration')
             it.loop_frames.append(frame)
             try:
@@ -288,7 +308,7 @@ def cut_loop(it, node, env, spec, iterable):
                 env.set(iname, SInt(env.lookup(iname).t + 1))
             elif mode in ('keys', 'set'):
                 dn = env.lookup(dname)
-                env.set(dname, VSet(arr=z3.Store(dn.arr, pv.kenc_t(key), z3.BoolVal(True))))
+                env.set(dname, VSet(arr=z3.Store(dn.arr, ek, z3.BoolVal(True))))
             for j, s in enumerate(invs):
                 ctx.oblige('%s.inv[%d].keep' % (tag, j), spec_bool(it, s, env), node.lineno, 'inv-keep',
                            info={'clause': s})
